@@ -12,7 +12,7 @@ THEOREMS = ["C07_numerals_bounded", "C07_hex_numerals_bounded", "C07_saturation_
 RULE = ("every sequence of up to k lexical fragments from the language's alphabet (k=2 quick over the full alphabet, "
         "k=3 over a reduced alphabet; thorough k=3 full), random junk text incl. non-ASCII, grammar programs with arguments "
         "dropped/duplicated/out of range (every command name of the implementation's table x 16 argument shapes, every reservation head x "
-        "reservation command x argument shape, each followed by notes), truncations and mutations of /repo/samples, programs of the extended "
+        "reservation command x argument shape, each followed by notes; every character of U+0000..U+00FF and of the range boundaries the code tests in 22..32 one-character contexts), truncations and mutations of /repo/samples, programs of the extended "
         "pipeline fragment (mmlgen.ext_program: controllers, bends, RPN, reservations, PLAY, Str); non-trivial = distinct input of >= 2 fragments")
 TRUSTED = ["watchdog: a case that makes no progress for 15 s counts as a hang",
            "stack overflow / allocation failure / 64-bit overflow checks live in the runtime: observed on the implementation (debug build), not provable on the model"]
@@ -99,10 +99,29 @@ def grammar_stream(rng, quick):
     return out
 
 
+CHAR_CONTEXTS = ["%s", "Rhythm{%s}", "Rhythm{b4 %s s4}", "$%s{n36,}", "$%s{n36,} Rhythm{%s}", "c%s", "l%s", "@%s", "#%s={c} #%s", "~{%s}={c} %s",
+                 "v.%s()", "KF%s(c)", "y%s,1", "TR(%s)", "PRINT({%s})", "'c%s'", "[%s c]", "o%s", "{c%s}", "$a{%s} Rhythm{a}", "Sub{%s}",
+                 "STR S={%s} PRINT(S)", "TrackName={\"%s\"}", "v%s", "q%s", "n%s", "c,%s", "%s=1", "%s(1)", "IF(%s){c}", "c&%s", "/*%s*/"]
+
+
+def char_context_stream(quick):
+    """every character of the first 256 code points (and the boundaries of the ranges the code tests or indexes by) in every
+    context where the code looks at a single character: tables indexed by a character, range tests, prev()/re-read sites"""
+    cps = list(range(0, 0x100)) + [0x100, 0x2FF, 0x3000, 0x3001, 0x3040, 0x30FF, 0xFF00, 0xFF01, 0xFF10, 0xFF21, 0xFF3F, 0xFF40, 0xFF5E, 0xFF5F,
+                                    0xFFFD, 0xFFFF, 0x10000, 0x1F600, 0x10FFFF, 0xD7FF, 0xE000]
+    ctxs = CHAR_CONTEXTS if not quick else CHAR_CONTEXTS[:22]
+    out = []
+    for cp in cps:
+        ch = chr(cp)
+        for t in ctxs:
+            out.append(t.replace("%s", ch) + " c")
+    return out
+
+
 def run(ctx):
     rng = ctx.rng
-    srcs = grammar_stream(rng, ctx.tier == "quick")
-    ctx.dist["grammar_stream"] = len(srcs)
+    srcs = grammar_stream(rng, ctx.tier == "quick") + char_context_stream(ctx.tier == "quick")
+    ctx.dist["grammar_and_char_streams"] = len(srcs)
     if ctx.tier == "quick":
         srcs += ["".join(p) for p in itertools.product(FRAGS, repeat=1)]
         srcs += ["".join(p) for p in itertools.product(FRAGS, repeat=2)]
